@@ -229,7 +229,12 @@ def worker(cfg, tier):
         bad, m = replay_case(md)
         md["unarrived"] = m
         md["ext"] = ext
-        if m > ext:
+        try:  # the class of the counterexample is read off the solver's (real-valued) model; the float32 replay may round a tie the other way
+            m_model = int(str(model.eval(count, model_completion=True)))
+        except Exception:  # noqa
+            m_model = m
+        md["unarrived_in_model"] = m_model
+        if m > ext or m_model > ext:
             key = KEY_K2
             what = (f"trainable-delay window too short: {m} real entries of the extended window (ext={ext}) have not arrived under the "
                     f"configured delay, apply_delay hands the step a message that has not arrived yet (idx_max - window < 0)")
